@@ -54,7 +54,7 @@ ASSUMPTIONS = ['"accepted" = the peer answered RCPT with 2xx and the (per '
                'recipient, for LMTP) end-of-data with 2xx']
 CELL_BUDGET_S = {'quick': 240, 'thorough': 2400}
 SAMPLE_P = 0.02
-MAX_WITNESSES = 6
+MAX_WITNESSES = 10
 RC = ['r0@x', 'r1@x', 'r2@x']
 
 
